@@ -152,6 +152,22 @@ func traceField(v ssa.Value, tname string, seen map[ssa.Value]bool, out strset) 
 	}
 	switch x := v.(type) {
 	case *ssa.Call:
+		// a getter of the library itself (a small function or closure computing the text of a field): the fields
+		// its results are loaded from
+		if sc := x.Call.StaticCallee(); sc != nil && len(sc.Blocks) > 0 && x.Parent() != nil && sc.Pkg == x.Parent().Pkg && len(seen) < 300 && isGetterShape(sc) {
+			got := strset{}
+			for _, b := range sc.Blocks {
+				if r, ok := b.Instrs[len(b.Instrs)-1].(*ssa.Return); ok {
+					for _, res := range r.Results {
+						traceField(res, tname, seen, got)
+					}
+				}
+			}
+			if len(got) > 0 {
+				out.addAll(got)
+				return
+			}
+		}
 		for _, a := range x.Call.Args {
 			traceField(a, tname, seen, out)
 		}
@@ -288,4 +304,21 @@ func (p *Prog) globalMapKeys(name string) []string {
 		}
 	}
 	return keys
+}
+
+// isGetterShape: a closure, or a function / method of one parameter that is a (pointer to a) struct: what it
+// returns is computed from the fields of that one value.
+func isGetterShape(f *ssa.Function) bool {
+	if f.Parent() != nil {
+		return true
+	}
+	if len(f.Params) != 1 {
+		return false
+	}
+	t := f.Params[0].Type()
+	if pt, ok := t.Underlying().(*types.Pointer); ok {
+		t = pt.Elem()
+	}
+	_, ok := t.Underlying().(*types.Struct)
+	return ok
 }
